@@ -500,7 +500,7 @@ func genTree(r *hx.Rng, dir string, o imgOpts) (*tree, error) {
 	f07 := "f07_" + strconv.Itoa(bs+1)
 	xa(f07, "gnu.translator", []byte("/hurd/symlink\x00target\x00"))
 	xa(f07, "system.richacl", []byte{0, 0, 0, 0, 1, 0, 0, 0, 0xff, 0xff, 0xff, 0xff, 0, 0, 0, 0})
-	xa(f07, "system.data", []byte("d"))
+	xa(f07, "system.verif", []byte("d")) // not "system.data": that name is the inline-data attribute and debugfs refuses it
 	xa(f07, "user.gnu.translator", []byte("not the gnu. index"))
 	// --- inode kind x xattr placement: every kind (file, directory, fast symlink, slow symlink) with attributes
 	// in the inode only, in an external block only, and in both. `big` never fits the in-inode space of a
